@@ -216,6 +216,62 @@ pub fn phases(thorough: bool, _seed: u64) -> Vec<Phase> {
         bounds: json!({"operations": "Piecewise *, *=, translate, -, derivative, integral, indefinite, &+&, &-&, evaluate, PiecewiseEvaluator, approx, serde",
             "inputs": "every pair of end lists of length 1..3 (4 thorough) over the nasty value set (non-NaN, +-0, subnormal, MAX, +inf) x 4 scalars"}),
     });
+    // ---- Arbitrary: any byte string is an input; generation returns Ok or Err, it never panics
+    v.push(Phase {
+        name: "census-arbitrary",
+        units: 3,
+        split: 0,
+        body: Box::new(move |unit, cx| {
+            use arbitrary::{Arbitrary, Unstructured};
+            const V: [f64; 7] = [1.0, f64::NAN, f64::INFINITY, 0.0, -1.0, 5e-324, -2.5];
+            let bytes: Vec<u8> = match cx.choose(2) {
+                0 => {
+                    // 0..3 ends over V in the Vec<f64> encoding (continuation byte, 8 bytes), then piece bytes
+                    let n = cx.choose(4);
+                    let mut b = vec![];
+                    for _ in 0..n {
+                        b.push(1);
+                        b.extend(V[cx.choose(V.len())].to_bits().to_le_bytes());
+                    }
+                    b.push(0);
+                    b.extend(std::iter::repeat(0x3fu8).take(48));
+                    b
+                }
+                _ => {
+                    let fill = [0xffu8, 0x00, 0x7f, 0xf0, 0x01][cx.choose(5)];
+                    vec![fill; cx.choose(41)]
+                }
+            };
+            cx.nontrivial();
+            cx.evals(2);
+            if cx.sampling() {
+                cx.sample(json!({"bytes": bytes.len(), "first": bytes.iter().take(12).collect::<Vec<_>>()}));
+            }
+            np("Arbitrary generation", json!({"bytes": bytes}), || {
+                let mut n = 0usize;
+                match unit {
+                    0 => {
+                        n += Piecewise::<Poly1>::arbitrary(&mut Unstructured::new(&bytes)).map_or(0, |p| p.segments.len());
+                        n += Piecewise::<Poly1>::arbitrary_take_rest(Unstructured::new(&bytes)).map_or(0, |p| p.segments.len());
+                    }
+                    1 => {
+                        n += Piecewise::<PolyN>::arbitrary(&mut Unstructured::new(&bytes)).map_or(0, |p| p.segments.len());
+                        n += Piecewise::<PolyN>::arbitrary_take_rest(Unstructured::new(&bytes)).map_or(0, |p| p.segments.len());
+                    }
+                    _ => {
+                        n += Piecewise::<Poly8>::arbitrary(&mut Unstructured::new(&bytes)).map_or(0, |p| p.segments.len());
+                        n += Piecewise::<Piecewise<Poly0>>::arbitrary(&mut Unstructured::new(&bytes)).map_or(0, |p| p.segments.len());
+                        n += Poly3::arbitrary(&mut Unstructured::new(&bytes)).map_or(0, |_| 1);
+                        n += Knot::arbitrary(&mut Unstructured::new(&bytes)).map_or(0, |_| 1);
+                    }
+                }
+                n as f64
+            })
+        }),
+        classes: vec![],
+        bounds: json!({"inputs": "byte strings encoding 0..3 ends over {1,NaN,+inf,0,-1,5e-324,-2.5} followed by piece bytes; 0..40 copies of 0xff, 0x00, 0x7f, 0xf0, 0x01",
+            "operations": "Arbitrary::arbitrary and arbitrary_take_rest for Piecewise<Poly1>, Piecewise<PolyN>, Piecewise<Poly8>, Piecewise<Piecewise<Poly0>>; arbitrary for Poly3, Knot"}),
+    });
     // ---- documented rejections: executed and reported, never flagged
     v.push(Phase {
         name: "documented-rejections",
